@@ -102,7 +102,7 @@ CLAIMED = {
         ref="6 (C09)"),
     "C18": dict(
         technique="TLA+ spec Pricers.tla (the no-arbitrage relations of a ladder of European prices as predicates over integer vectors) model-checked by TLC on every small discrete law; price ladders recorded from the real COS / FFT / Black-Scholes pricers trace-validated by TLC against the same predicates with a stated tolerance",
-        text="THIN. TLC checks that for every discrete terminal law with weights 0..2 on {0..6} and six uniform strike ladders the exact prices satisfy call-put parity, intrinsic <= call <= discounted forward, monotonicity, convexity and the digital relations with tolerance 0 (the predicates are the right ones). For the exponential models of the documented box (HEM x2, Merton x2, VG, CGMY x2, Black-Scholes, VG written as CGMY) and maturities 0.1..2 (..3 thorough), the real COS call / put / forward / digital prices on a uniform ladder inside the truncation range are quantised (1e-7 spot) and TLC applies the same predicates within 3e-5 spot; COS = FFT (calls and puts), COS = Black-Scholes closed form (incl. digital and the degenerate branch = discounted intrinsic), VG = its CGMY parametrisation; scalar strike = vector entry and COSPricer.price / butterfly dispatch within 3e-7 spot; the implied density is >= -tol and integrates to one, and the cdf increments equal the density's mass.",
+        text="THIN. TLC checks that for every discrete terminal law with weights 0..2 on {0..6} and six uniform strike ladders the exact prices satisfy call-put parity, intrinsic <= call <= discounted forward, monotonicity, convexity and the digital relations with tolerance 0 (the predicates are the right ones). For the exponential models of the documented box (HEM x2, Merton x2, VG, CGMY x2, Black-Scholes with and without dividend yield, VG written as CGMY, models whose r / d were assigned after construction) and maturities 0.02..2, the real COS call / put / forward / digital prices on a uniform ladder inside the truncation range are quantised (1e-7 spot) and TLC applies the same predicates within 3e-5 spot; COS = FFT (calls and puts, 6e-6 spot), COS = Black-Scholes closed form (incl. digital and the degenerate branch = discounted intrinsic), VG = its CGMY parametrisation; scalar strike = vector entry and COSPricer.price / butterfly dispatch within 3e-7 spot; the implied density is >= -tol and integrates to one, and the cdf increments equal the density's mass.",
         note="The accuracy of the pricers themselves is not decided: the reference of every clause is another pricer of the library, the closed form, or a relation between its own outputs; models, maturities and strikes are sampled from a documented box (DESIGN.md section 6). Two defects repaired (degenerate Black-Scholes digital with a scalar strike; COS cdf discounted).",
         ref="6 (C18)"),
 }
